@@ -10,6 +10,9 @@ sys.path.insert(0, os.path.join(vlib.VERIF, 'tools'))
 import gen_c03_progs as G
 
 LEVEL = 'proof'
+# same program shapes as the C03 differential (no `alloca` in inlinable functions: MIR_link's alloca hoisting is a
+# C04 finding that makes programs nondeterministic)
+FEATS = {'mem', 'switch', 'laddr', 'lref', 'indirect', 'reftab', 'inline', 'recursion', 'callback', 'ext_va'}
 PDIR = os.path.join(vlib.BUILD, 'c16p')
 
 
@@ -233,11 +236,11 @@ def run(chk):
         'working list func->insns, registers it creates, and the current label fields of lrefs']
     found = 0
     rng = chk.rng('c16')
-    nprog = 40 if quick else 600
-    nproto = 10 if quick else 40
-    ne2e = 3 if quick else 8
+    nprog = 40 if quick else 250
+    nproto = 10 if quick else 30
+    ne2e = 3 if quick else 6
     for k in range(nprog):
-        prog = G.gen_program(rng)
+        prog = G.gen_program(rng, feats=FEATS)
         path = write_prog(prog['text'], 'p')
         for ft in prog['features']:
             chk.dist('prog_features', ft)
